@@ -34,7 +34,7 @@ import (
 func init() {
 	hx.Register(&hx.Prop{
 		ID: "C14",
-		Rule: "exhaustive: every handler op sequence of length ≤ 3 over an 8-letter alphabet (Header set, WriteHeader 200/404, Write valid/invalid piece, empty Write, Flush, Header after) " +
+		Rule: "exhaustive: every handler op sequence of length ≤ 3 (thorough: ≤ 4) over a 9-letter alphabet (Content-Type set, X-A set, WriteHeader 200/404/0, Write valid/invalid piece, empty Write, Flush) " +
 			"× strict/non-strict × 6 response-document shapes, plus route/request failures × ErrFunc kinds (default http.Error, echo, silent, custom op list) × routers × recorder/real server, " +
 			"plus ValidationHandler (ServeHTTP/Middleware × custom/ValidationErrorEncoder × route/request outcomes); then a seeded random stream of op lists up to length 8 " +
 			"(incl. invalid status codes, header deletions, Content-Type variants). Non-trivial = the model reports a non-default branch (e.g. write before WriteHeader, several WriteHeader calls, " +
@@ -565,7 +565,7 @@ func c14With(c hx.Case, kv ...any) hx.Case {
 func genC14(ctx *hx.Ctx, emit func(hx.Case)) {
 	ct := c14Op("set", "Content-Type", "application/json")
 	alphabet := []map[string]any{
-		ct, c14Op("wh", 200), c14Op("wh", 404), c14Op("w", "12"), c14Op("w", "x"), c14Op("w", ""), c14Op("fl"), c14Op("set", "X-A", "1"),
+		ct, c14Op("wh", 200), c14Op("wh", 404), c14Op("w", "12"), c14Op("w", "x"), c14Op("w", ""), c14Op("fl"), c14Op("set", "X-A", "1"), c14Op("wh", 0),
 	}
 	// all op sequences of length ≤ 3 (quick) / ≤ 4 (thorough)
 	maxLen := 3
@@ -593,9 +593,7 @@ func genC14(ctx *hx.Ctx, emit func(hx.Case)) {
 				// every sequence runs on the recorder in both modes against every document; a rotating
 				// third of them additionally behind the real server, and with the other callbacks
 				c := c14With(base, "ops", ops, "strict", strict, "doc", doc)
-				if len(ops) == maxLen && !ctx.Thorough() && (i+di)%2 == 0 {
-					continue // quick tier thins the longest sequences by half
-				}
+				_ = di
 				emit(c)
 				switch i % 6 {
 				case 0:
@@ -649,9 +647,9 @@ func genC14(ctx *hx.Ctx, emit func(hx.Case)) {
 		}
 	}
 	// seeded random stream
-	n := 3000
+	n := 8000
 	if ctx.Thorough() {
-		n = 40000
+		n = 60000
 	}
 	r := ctx.Rng
 	randOp := func() map[string]any {
